@@ -70,6 +70,10 @@ func (s *ServerLedActivationToken) Store(ctx context.Context, storage nodeenroll
 		if err != nil {
 			return fmt.Errorf("(%s) error marshaling wrapped creation time: %w", op, err)
 		}
+		// The creation time is only meaningful in its wrapped form; do not
+		// also hand the plain value to storage. It is restored from the
+		// unwrapped copy at load time.
+		tokenToStore.CreationTime = nil
 	}
 
 	if err := storage.Store(ctx, tokenToStore); err != nil {
